@@ -92,6 +92,8 @@ pub struct NetInner {
     /// (id, term) of nodes currently in the Leader role (for discover_leader)
     pub leader_directory: Vec<(u32, u64)>,
     pub opened: u64,
+    /// a second candidate asked for votes while an election was in flight (path is pruned)
+    pub nested_election: bool,
 }
 
 #[derive(Clone, Default)]
@@ -181,7 +183,10 @@ impl<T: TypeConfig> Transport<T> for SimTransport<T> {
         let (tx, rx) = oneshot::channel();
         {
             let mut g = self.net.0.lock().unwrap();
-            assert!(g.pending_vote.is_none(), "nested election in the simulated network");
+            if g.pending_vote.is_some() {
+                g.nested_election = true;
+                return Err(NetworkError::TaskBackoffFailed("second election in flight (harness limit)".into()).into());
+            }
             g.pending_vote =
                 Some(PendingVote { candidate: self.my_id, req, peers: ids, reply: tx });
         }
